@@ -55,6 +55,7 @@ func FuzzIdentifyStream(f *testing.F) {
 	w := fuzzWorld()
 	// seeds: generated structured messages (small ones), in both roles and on all connection classes
 	added := 0
+	var late [][]byte // messages also played in the late mode (fuzzLate): those with many addresses first
 	for seed := 0; added < 48 && seed < 400; seed++ {
 		s := seed
 		msg := rapid.Custom(func(rt *rapid.T) *msgSpec { return w.drawMsg(rt, s%60, "m") }).Example(seed)
@@ -62,19 +63,36 @@ func FuzzIdentifyStream(f *testing.F) {
 			continue
 		}
 		f.Add(msg.wire, byte(added))
+		if !msg.malformed && len(msg.allowed) > unconnectedCap {
+			late = append([][]byte{msg.wire}, late...)
+		} else if added%4 == 1 {
+			late = append(late, msg.wire)
+		}
 		added++
 	}
 	f.Add([]byte{}, byte(0))
 	f.Add([]byte{0x00}, byte(1))
 	f.Add([]byte{0xff, 0xff, 0xff, 0xff, 0xff, 0xff, 0xff, 0xff, 0xff, 0x01}, byte(2))
+	for i, wire := range late[:min(len(late), 24)] {
+		// every message as push and as response, behind every class of remote address in turn
+		f.Add(wire, fuzzLate|byte(i))
+		f.Add(wire, fuzzLate|byte(i+1))
+	}
 	name := "FuzzIdentifyStream"
 	f.Fuzz(func(t *testing.T, data []byte, mode byte) {
 		if len(data) > 128<<10 {
 			return
 		}
-		consumed, failure := fuzzOne(w, data, mode)
+		consumed, kept, failure := fuzzOne(w, data, mode)
 		if !fuzzing {
-			stats.Case(name, fmt.Sprintf("%x/%d", data[:min(len(data), 64)], mode), consumed)
+			var labels []string
+			if consumed && mode&fuzzLate != 0 {
+				labels = append(labels, "consumed-after-the-only-connection-was-gone")
+				if kept == unconnectedCap {
+					labels = append(labels, "consumed-after-the-only-connection-was-gone:cap-reached")
+				}
+			}
+			stats.Case(name, fmt.Sprintf("%x/%d", data[:min(len(data), 64)], mode), consumed, labels...)
 		}
 		if failure != "" {
 			t.Fatal(failure)
@@ -82,12 +100,20 @@ func FuzzIdentifyStream(f *testing.F) {
 	})
 }
 
+// fuzzLate (a bit of the mode byte) selects the late schedule: the connection, the only
+// one to the peer, goes away (Disconnected handled completely) after the stream with the
+// message exists and before identify handles what it reads from it. Then nothing vouches for
+// the peer, and what is retained must stay within the bound for unconnected peers.
+const fuzzLate = 0x80
+
 // fuzzOne plays data as the remote's stream and applies the attribution oracle.
-func fuzzOne(w *world, data []byte, mode byte) (consumed bool, failure string) {
+func fuzzOne(w *world, data []byte, mode byte) (consumed bool, kept int, failure string) {
+	late := mode&fuzzLate != 0
+	mode &^= fuzzLate
 	clk := &fakeClock{t: time.Now()}
 	base, err := pstoremem.NewPeerstore(pstoremem.WithMaxProtocols(1<<20), pstoremem.WithClock(clk))
 	if err != nil {
-		return false, "peerstore: " + err.Error()
+		return false, 0, "peerstore: " + err.Error()
 	}
 	defer base.Close()
 	ps := newPSWrap(base, mode&2 != 0)
@@ -122,12 +148,12 @@ func fuzzOne(w *world, data []byte, mode byte) (consumed bool, failure string) {
 
 	sub, err := bus.Subscribe(new(event.EvtPeerIdentificationCompleted), eventbus.BufSize(16))
 	if err != nil {
-		return false, "subscribe: " + err.Error()
+		return false, 0, "subscribe: " + err.Error()
 	}
 	defer sub.Close()
 	ids, err := identify.NewIDService(h, identify.WithTimeout(30*time.Second))
 	if err != nil {
-		return false, "NewIDService: " + err.Error()
+		return false, 0, "NewIDService: " + err.Error()
 	}
 	ids.Start()
 	defer ids.Close()
@@ -154,6 +180,10 @@ func fuzzOne(w *world, data []byte, mode byte) (consumed bool, failure string) {
 		}
 		remote.Write(append(append(msLine("/multistream/1.0.0"), msLine(identify.ID)...), data...))
 		remote.CloseWrite()
+		if late {
+			h.net.shut(c, false)
+			h.net.notifyDisconnected(c)
+		}
 		remoteCh <- remote
 		return s, nil
 	}
@@ -164,6 +194,10 @@ func fuzzOne(w *world, data []byte, mode byte) (consumed bool, failure string) {
 		s.SetProtocol(identify.IDPush)
 		remote.Write(data)
 		remote.CloseWrite()
+		if late {
+			h.net.shut(fc, false)
+			h.net.notifyDisconnected(fc)
+		}
 		h.handler(identify.IDPush)(s)
 	} else {
 		// identify is done with the message when it closes or resets its end of the stream
@@ -187,33 +221,34 @@ func fuzzOne(w *world, data []byte, mode byte) (consumed bool, failure string) {
 			want = empty
 		}
 		if got := ps.digest(q); got != want {
-			return consumed, fmt.Sprintf("the peerstore entry of a peer other than the authenticated remote changed\npeer   %s (remote is %s)\nbefore %s\nafter  %s", q, p, want, got)
+			return consumed, kept, fmt.Sprintf("the peerstore entry of a peer other than the authenticated remote changed\npeer   %s (remote is %s)\nbefore %s\nafter  %s", q, p, want, got)
 		}
 	}
 	if k := ps.PubKey(p); k != nil {
 		want, _ := ic.MarshalPublicKey(w.p.Pub)
 		if b, err := ic.MarshalPublicKey(k); err != nil || !bytes.Equal(b, want) {
-			return consumed, fmt.Sprintf("a public key that does not hash to the remote peer's ID is stored for it (%x)", b)
+			return consumed, kept, fmt.Sprintf("a public key that does not hash to the remote peer's ID is stored for it (%x)", b)
 		}
 	}
 	addrs := ps.Addrs(p)
+	kept = len(addrs)
 	if len(addrs) > 500 {
-		return consumed, fmt.Sprintf("%d addresses retained for the remote peer (cap 500)", len(addrs))
+		return consumed, kept, fmt.Sprintf("%d addresses retained for the remote peer (cap 500)", len(addrs))
 	}
 	for _, a := range addrs {
 		if _, id := peer.SplitAddr(a); id != "" && id != p {
 			// only legitimate as the remainder of an advertised ".../p2p/<other>/p2p/<p>": the
 			// trailing component named p, what precedes it is p's own business
 			if !bytes.Contains(data, append(append([]byte(nil), a.Bytes()...), ownSuffix...)) {
-				return consumed, fmt.Sprintf("address %s with a foreign /p2p suffix stored for the remote peer", a)
+				return consumed, kept, fmt.Sprintf("address %s with a foreign /p2p suffix stored for the remote peer", a)
 			}
 		}
 		if !bytes.Contains(data, a.Bytes()) {
-			return consumed, fmt.Sprintf("address %s stored for the remote peer does not occur in the message", a)
+			return consumed, kept, fmt.Sprintf("address %s stored for the remote peer does not occur in the message", a)
 		}
 	}
 	if protos, _ := ps.GetProtocols(p); len(protos) > 1024 {
-		return consumed, fmt.Sprintf("%d protocols retained for the remote peer (cap 1024)", len(protos))
+		return consumed, kept, fmt.Sprintf("%d protocols retained for the remote peer (cap 1024)", len(protos))
 	}
 	if e := ps.GetPeerRecord(p); e != nil { // this version keeps none; one that is kept must be p's own
 		want, _ := ic.MarshalPublicKey(w.p.Pub)
@@ -221,21 +256,28 @@ func fuzzOne(w *world, data []byte, mode byte) (consumed bool, failure string) {
 		rec, err := e.Record()
 		pr, _ := rec.(*peer.PeerRecord)
 		if err != nil || pr == nil || pr.PeerID != p || !bytes.Equal(kb, want) {
-			return consumed, "a signed peer record that the peer did not sign for itself is kept for it in the certified address book"
+			return consumed, kept, "a signed peer record that the peer did not sign for itself is kept for it in the certified address book"
 		}
 	}
-	// the connection goes away: what is left must be on a finite lifetime (the address
-	// book runs on a clock of its own here, everything else on real time)
-	h.net.shut(fc, true)
-	h.net.notifyDisconnected(fc)
-	if n := len(ps.Addrs(p)); n > 20 {
-		return consumed, fmt.Sprintf("%d addresses kept right after the last connection closed (at most 20 are kept for recently connected peers)", n)
+	if late {
+		// nothing was known about p and the message was handled for a peer without connection
+		if len(addrs) > unconnectedCap {
+			return consumed, kept, fmt.Sprintf("%d addresses retained from a message handled after the only connection to the peer was gone (at most %d are kept for a peer without connection)", len(addrs), unconnectedCap)
+		}
+	} else {
+		// the connection goes away: what is left must be on a finite lifetime (the address
+		// book runs on a clock of its own here, everything else on real time)
+		h.net.shut(fc, true)
+		h.net.notifyDisconnected(fc)
+		if n := len(ps.Addrs(p)); n > 20 {
+			return consumed, kept, fmt.Sprintf("%d addresses kept right after the last connection closed (at most 20 are kept for recently connected peers)", n)
+		}
 	}
 	clk.advance(peerstore.RecentlyConnectedAddrTTL + time.Second)
 	if left := ps.Addrs(p); len(left) > 0 {
-		return consumed, fmt.Sprintf("%d addresses of the remote peer survive RecentlyConnectedAddrTTL after the last connection closed: %v", len(left), left[:min(3, len(left))])
+		return consumed, kept, fmt.Sprintf("%d addresses of the remote peer survive RecentlyConnectedAddrTTL after the last connection closed: %v", len(left), left[:min(3, len(left))])
 	}
-	return consumed, ""
+	return consumed, kept, ""
 }
 
 type fakeClock struct {
